@@ -17,6 +17,11 @@ from fractions import Fraction
 sys.set_int_max_str_digits(0)      # exact rationals of deep models can have thousands of digits
 ROOT = os.path.dirname(os.path.dirname(os.path.abspath(__file__)))
 LEAN = os.path.join(ROOT, "lean")
+# where evidence/ and replays/ are written: /verif itself, except for the seeded-change runner, which runs
+# many patched scratch worktrees in parallel (tools/seeded.py prun) and must not overwrite the real evidence
+OUT = os.environ.get("VERIF_OUT") or ROOT
+# the tree under test: /repo (the editable install); the seeded runner points it at a scratch worktree
+REPO = os.environ.get("VERIF_REPO") or "/repo"
 DRIVER = os.path.join(LEAN, ".lake", "build", "bin", "rpydriver")
 
 STD_AXIOMS = {"propext", "Classical.choice", "Quot.sound"}
@@ -237,7 +242,7 @@ class Ctx:
         if len(self.violations) >= self.max_violations:
             self.stats["violations_suppressed"] += 1
             return
-        os.makedirs(os.path.join(ROOT, "replays"), exist_ok=True)
+        os.makedirs(os.path.join(OUT, "replays"), exist_ok=True)
         idx = len(self.violations)
         path = os.path.join("replays", f"{self.prop}_{self.tier}_{self.seed}_{idx}.json")
         data = {"property": self.prop, "what": what, "found_failing_input": found_input,
@@ -245,7 +250,7 @@ class Ctx:
                 "observed": observed, "seed": self.seed, "tier": self.tier}
         if extra:
             data.update(extra)
-        with open(os.path.join(ROOT, path), "w") as f:
+        with open(os.path.join(OUT, path), "w") as f:
             json.dump(data, f, indent=1, default=str)
         self.violations.append({"replay": path, "found_input": found_input, "what": what})
 
